@@ -250,6 +250,14 @@ func (x *Exec) atReturn(fr *Frame, c *Contract, entry, st *State, params, result
 	x.covers = append(x.covers, cov)
 
 	sig := fn.Signature
+	// loop ghosts of the function's own frame (their last bindings on this path) are visible to its ensures clauses
+	if x.calleeFree == nil {
+		x.calleeFree = map[*Contract]map[string]EV{}
+	}
+	x.retGhosts = map[string]EV{}
+	for k, v := range fr.ghostLocal {
+		x.retGhosts[k] = EV{V: v, T: x.ghostDecl[k]}
+	}
 	ec := x.evalCtxFor(c, st, entry, nil, params, sig, results, true)
 	var outs []NamedVal
 	for i, r := range results {
